@@ -161,7 +161,8 @@ def check_c20(run):
     cases = read_ndjson(os.path.join(d, "gen.ndjson"))
     run.cov["states"] = len(cases)
     run.cov["transitions"] = len(cases)
-    sessions = [dict(c, id=i + 1) for i, c in enumerate(cases)]
+    # every fourth layout is submitted with \r\n line ends (same lines, same line numbers)
+    sessions = [dict(c, id=i + 1, crlf=(i % 4 == 3)) for i, c in enumerate(cases)]
     binary = run.go_build("langdrv")
     sp = os.path.join(run.scratch, "sessions-lines.ndjson")
     tp = os.path.join(run.scratch, "traces-lines.ndjson")
